@@ -27,6 +27,7 @@ import (
 	"fmt"
 	"os"
 	"runtime/debug"
+	"runtime/pprof"
 	"time"
 
 	"verif/engine/vk"
@@ -35,8 +36,19 @@ import (
 func main() {
 	worker := flag.String("worker", "", "internal: schedule worker scenario:bound:budgetSeconds")
 	part := flag.String("part", "abc", "which enumerations to run (subset of abc)")
+	prof := flag.String("cpuprofile", "", "internal: write a CPU profile")
 	r := vk.New("model_checking")
-	debug.SetGCPercent(400)
+	gcp := 400
+	if v := os.Getenv("VERIF_GOGC"); v != "" {
+		fmt.Sscan(v, &gcp)
+	}
+	debug.SetGCPercent(gcp)
+	if *prof != "" {
+		f, _ := os.Create(*prof)
+		pprof.StartCPUProfile(f)
+		defer pprof.StopCPUProfile()
+		stopProf = pprof.StopCPUProfile
+	}
 	if *worker != "" {
 		schedWorker(*worker)
 		return
@@ -45,7 +57,7 @@ func main() {
 		replayFile(r)
 		return
 	}
-	r.SetBudget(100*time.Second, 25*time.Minute)
+	r.SetBudget(150*time.Second, 25*time.Minute)
 	has := func(c byte) bool {
 		for i := 0; i < len(*part); i++ {
 			if (*part)[i] == c {
@@ -68,9 +80,8 @@ func main() {
 		depth := 6
 		cfgs := []cfg{
 			{true, pruneNothing, true},
-			{false, pruneNothing, false},
-			{true, pruneRecent1, true},
-			{false, pruneEverything, true},
+			{false, pruneRecent1, true},
+			{true, pruneEverything, false},
 		}
 		if r.Thorough() {
 			depth = 8
@@ -188,13 +199,17 @@ func main() {
 		"in the quick tier the per-version comparison runs after every Commit/restart/toggle step (the steps that can change a view); live-store reads are compared after every step; thorough compares everything after every step",
 		"(c) treats code between scheduling points (DB operations, shimmed sync/atomic operations) as atomic; see c_schedules.not_enumerated",
 	}
-	cov["states"] = states
+	_ = states
+	cov["states"] = r.NDistinct()
 	cov["transitions"] = transitions
 	cov["traces_validated_against_impl"] = transitions
 	exh := !r.Capped()
+	stopProf()
 	r.Finish("every op sequence up to the depth per configuration; every physical-write-log prefix of every history up to depth 4 (two wirings); every schedule with <= bound preemptions per scenario; distinct = distinct (DB bytes, working set, index flag) states + distinct schedule observations",
 		exh, cov)
 }
+
+var stopProf = func() {}
 
 func fatal(format string, a ...any) {
 	fmt.Printf("HARNESS-ERROR: "+format+"\n", a...)
